@@ -289,13 +289,23 @@ def gen_case(rng, cid: str, stream: str = "cli") -> dict:
                          # the project is a checkout whose `.git` is a FILE: a linked worktree (`git worktree add`) or a
                          # submodule of the outer repository g; with / without own pytask configuration / with a
                          # pyproject.toml that has no pytask section
-                         "linked_cfg", "linked_nocfg", "linked_nocfg", "linked_nosection"])
+                         "linked_cfg", "linked_nocfg", "linked_nocfg", "linked_nosection",
+                         # mono-repo: m/pyproject.toml is the pytask configuration (with the exclude patterns), the given path is
+                         # the sub-package m/pkg which has a pyproject.toml of its own WITHOUT [tool.pytask.ini_options]
+                         # (no [tool] / [tool.pytask] empty / [tool.pytask.<plugin>] only / other tools): the parent's file is
+                         # the configuration. `nested_childcfg`: the sub-package's file has ini_options, the parent's must not apply.
+                         "nested_parentcfg", "nested_parentcfg", "nested_parentcfg", "nested_childcfg"])
     if stream == "dirnode":
         layout = rng.choice(["norepo_cfg", "repo_root_cfg"])
     link_kind = None
     if layout.startswith("linked"):
         link_kind = rng.choice(["worktree", "submodule"])
         git_top = root_rel = "g/w" if link_kind == "worktree" else "g/s"
+    elif layout == "nested_parentcfg":
+        root_rel = "m"
+        git_top = "m" if rng.random() < 0.4 else None
+    elif layout == "nested_childcfg":
+        git_top, root_rel = None, "m/pkg"
     elif layout == "repo_above":
         git_top = "g"
         root_rel = rng.choice(["g/r", "g/r", "g/m/r"])
@@ -303,9 +313,11 @@ def gen_case(rng, cid: str, stream: str = "cli") -> dict:
         git_top = root_rel = "r"
     else:
         git_top, root_rel = None, "r"
-    has_cfg = layout.endswith("_cfg") or layout == "repo_above"
+    has_cfg = layout.endswith("cfg") and not layout.endswith("nocfg") or layout == "repo_above"
 
     tree = gen_tree(rng, rng.randint(2, 22), 3)
+    if layout == "nested_parentcfg":
+        tree = [["d", "pkg", tree]] + [["f", n] for n in rng.sample(["top.txt", "a.txt", "n.log"], rng.randint(0, 2))]
     files, dirs = flatten(tree)
     case_files: dict[str, str] = {f"{root_rel}/{f}": f"content of {f}\n" for f in files}
     case_dirs = [f"{root_rel}/{d}" for d in dirs] + [root_rel]
@@ -364,6 +376,8 @@ def gen_case(rng, cid: str, stream: str = "cli") -> dict:
     # --- exclude patterns and where they come from
     all_files = sorted(set(files) | set(modules))
     src = rng.choice(["none", "cli", "cli", "cfg", "cfg"]) if has_cfg else rng.choice(["none", "cli", "cli"])
+    if layout == "nested_parentcfg":
+        src = rng.choice(["cfg", "cfg", "cfg", "cli"])
     if GEN_BOTH_SOURCES and has_cfg and rng.random() < 0.1:
         src = "both"
     pats = gen_patterns(rng, all_files, dirs, root_rel) if src != "none" else []
@@ -377,6 +391,16 @@ def gen_case(rng, cid: str, stream: str = "cli") -> dict:
 
     if layout == "linked_nosection":
         case_files[f"{root_rel}/pyproject.toml"] = "[tool.black]\nline-length = 88\n"
+    if layout == "nested_parentcfg":
+        case_files[f"{root_rel}/pkg/pyproject.toml"] = rng.choice([
+            '[project]\nname = "pkg"\nversion = "1"\n',                                  # no [tool] at all
+            "[tool.pytask]\n",                                                           # the table of pytask, empty
+            '[tool.pytask.someplugin]\nexclude = ["nothing"]\n',                          # only a plugin's table below tool.pytask
+            "[tool.black]\nline-length = 88\n\n[tool.pytask.other_plugin]\nx = 1\n",
+            '[tool.ruff]\nexclude = ["*.txt"]\n'])
+    if layout == "nested_childcfg":   # the parent is a pytask project of its own; its patterns must not reach the sub-package
+        case_files["m/pyproject.toml"] = ("[tool.pytask.ini_options]\nexclude = ["
+                                          + ", ".join(json.dumps(p) for p in gen_patterns(rng, all_files, dirs, root_rel)) + "]\n")
 
     # --- outside of the project but inside the repository
     outer = []
@@ -419,7 +443,17 @@ def gen_case(rng, cid: str, stream: str = "cli") -> dict:
     paths, path_rels = [], None
     r = rng.random()
     sub_ok = layout != "norepo_nocfg"
-    if r < 0.55 or (not sub_ok and r < 0.8):
+    cwd_rel = root_rel
+    if layout == "nested_parentcfg":                             # the sub-package is what is cleaned
+        path_rels = ["pkg"]
+        k = rng.random()
+        if k < 0.35:
+            cwd_rel = f"{root_rel}/pkg"                          # `pytask clean` inside the sub-package
+        elif k < 0.7:
+            paths = ["pkg"]
+        else:
+            paths = [f"{{W}}/{root_rel}/pkg"]
+    elif r < 0.55 or (not sub_ok and r < 0.8):
         pass                                                     # cwd = root
     elif r < 0.7 or not sub_ok:
         paths, path_rels = [f"{{W}}/{root_rel}"], [""]
@@ -442,7 +476,7 @@ def gen_case(rng, cid: str, stream: str = "cli") -> dict:
         steps.append({"mode": "interactive", "input": "".join(rng.choice(["y\n", "n\n", "\n"]) for _ in range(60))})
     else:
         steps.append({"mode": "force"})
-    return {"id": cid, "stream": stream, "layout": layout, "root": root_rel, "git": git, "cwd": root_rel,
+    return {"id": cid, "stream": stream, "layout": layout, "root": root_rel, "git": git, "cwd": cwd_rel,
             "files": case_files, "dirs": case_dirs, "args": args, "paths": paths, "path_rels": path_rels,
             "steps": steps, "has_cfg": has_cfg, "cfg_pats": cfg_pats, "cli_pats": cli_pats,
             "modules": modules, "dirnodes": dirnodes, "outer": outer}
@@ -672,9 +706,10 @@ def judge(ctx, case: dict, obs: dict, line_sink: list | None = None) -> None:
                          f"{case['root']!r}", rp)
     if ctx.use_model and line_sink is not None:
         common = os.path.commonpath(["/" + r for r in roots]).lstrip("/") if case["path_rels"] is not None else case["cwd"]
-        sect = [f for f, t in case["files"].items() if f.endswith("/pyproject.toml") and "[tool.pytask.ini_options]" in t]
+        tables = [f"{enc_path(f'{V}/{f}')}|{'.'.join(enc(k) for k in t)}" for f, txt in sorted(case["files"].items())
+                  if f.endswith("/pyproject.toml") for t in toml_tables(txt)]
         rline = " ".join(["clean.root", "base=/v", "tree=" + tree_tokens({"ws": "d", **{f"ws/{k}": v for k, v in s0.items()}}, "ws"),
-                          "common=" + enc_path(f"{V}/{common}"), "sect=" + ",".join(enc_path(f"{V}/{x}") for x in sect)])
+                          "common=" + enc_path(f"{V}/{common}"), "tables=" + ",".join(tables)])
         line_sink.append(("root", case, rline, case["root"], f"{case['root']}/pyproject.toml" if case["has_cfg"] else None))
 
     # --- oracle 2: dry-run removes / changes nothing (checked first: everything else is read off the dry-run listing)
@@ -762,6 +797,25 @@ def judge(ctx, case: dict, obs: dict, line_sink: list | None = None) -> None:
         line = model_line(case, obs, s1, roots, mode, yes)
         if line_sink is not None:
             line_sink.append((case, obs, line, listed, s2))
+
+
+def toml_tables(text: str) -> list[tuple[str, ...]]:
+    """Paths of all tables of a TOML document (the harness's own reading of the file, by the standard parser)."""
+    import tomllib
+    try:
+        doc = tomllib.loads(text.replace("{W}", V))
+    except tomllib.TOMLDecodeError:
+        return []
+    out: list[tuple[str, ...]] = []
+
+    def walk(d: dict, pre: tuple[str, ...]):
+        for k, v in d.items():
+            if isinstance(v, dict):
+                out.append(pre + (k,))
+                walk(v, pre + (k,))
+
+    walk(doc, ())
+    return out
 
 
 def second_input_answers(case: dict) -> list[bool]:
@@ -1131,7 +1185,7 @@ def load_corpus() -> list[dict]:
 def campaign(ctx) -> None:
     # 1. corpus (known witnesses must still be detected: self-test of the oracle)
     corpus = load_corpus()
-    n_cli = ctx.scale(400, 6000)
+    n_cli = ctx.scale(360, 6000)
     n_dn = ctx.scale(30, 300)
     cases = list(corpus)
     cases += [gen_case(ctx.rng, f"c{i}") for i in range(n_cli)]
